@@ -386,6 +386,29 @@ async fn run_case_async(case: &Value) -> Value {
                 }
                 continue;
             }
+            "run_replicates" | "run_fetch_of" => {
+                // deliver, oldest first, every pending replication list / every pending fetch of one key;
+                // each delivery is reported as a step of its own
+                let only_key = if op["op"].as_str() == Some("run_fetch_of") { Some(build::key(&mut sim.reg, &op["key"])) } else { None };
+                let mut guard = 0;
+                loop {
+                    guard += 1;
+                    let pos = sim.pool.iter().position(|m| match (m, &only_key) {
+                        (Msg::Replicate { .. }, None) => true,
+                        (Msg::Fetch { query: Query::GetReplicatedRecord { key, .. }, .. }, Some(k)) => &key.to_record_key() == k,
+                        _ => false,
+                    });
+                    let Some(i) = pos else { break };
+                    if guard > 300 { break }
+                    let m = sim.pool.remove(i);
+                    let e = json!({"deliver": msg_json(&sim, &m)});
+                    let mut sub = vec![];
+                    deliver(&mut sim, m, &mut sub).await;
+                    let snap = snapshot(&mut sim, e, sub);
+                    steps.push(snap);
+                }
+                continue;
+            }
             "settle" => settle(&mut sim, &mut step).await,
             "dump" => {}
             other => step.push(json!({"error": format!("unknown op {other}")})),
